@@ -1141,6 +1141,8 @@ def _gen_paint(world, rnd, bad=False) -> dict:
         if in2:
             n2 = _pick(rnd, in2)
             idx2 = np.nonzero(seg[t2] == n2)
+            if len(idx2[0]) == 0:
+                return op
             k2 = rnd.randint(1, len(idx2[0]))  # part of it, or all
             m2 = np.zeros(world.shape, dtype=bool)
             m2[tuple(a[:k2] for a in idx2)] = True
